@@ -63,6 +63,23 @@ def props_of(d):
     if f.startswith("sweep") or (f in ("ev.missing", "ev.async") and "Expiration" in (str(d.get("want", "")) + str(d.get("got", "")))):
         # swept late, or the Expiration event of a removed entry not delivered (to one of the two handlers)
         P.add("C13")
+    # ---- generous ownership: the same visible deviation is usually a violation of several statements; a check must not
+    # stay quiet because a neighbouring property "owns" the field (on the unchanged tree there are no deviations at all)
+    hasexp = len(cfg) > 1 and cfg[1] not in ("none", "")
+    if pre == "dead" or (anydead and f in ("res", "ents", "rrs", "proj.p", "est", "num")):
+        P.add("C03")          # anything an expired-but-unswept entry makes an operation do differently
+        if hasexp:
+            P.add("C12")      # "visible exactly while the clock is before its expiration time"
+    if f == "proj.p" or f == "est":
+        P.add("C07")          # an entry present / absent without the model knowing a sanctioned reason
+    if op in LOAD_OPS or op in REFRESH_OPS:
+        P.add("C10")          # every observable consequence of a load outcome
+    if (op in LOAD_OPS and pre in ("stale", "dead")) or f.startswith("proj.ref"):
+        P.add("C11")
+    if hasexp and op in ("CleanUp", "Advance") and f in ("est", "proj.p", "ev.missing", "ev.async"):
+        P.add("C13")          # physically removed and reported when maintenance runs after the deadline
+    if f.startswith("ev.") and op in ("SetMaximum",):
+        P.add("C04")
     if f.startswith("saveload"):
         P.add("C19")
     if f.startswith("st."):
